@@ -6,6 +6,10 @@ ALL = ["C%02d" % i for i in range(1, 21)]
 
 # id -> (technique, level text, level note, design ref)
 CLAIMED = {
+ "C04": ("fuzzing-style generated inputs (Unicode/token soups, corpus mutations, deep nesting, JSON artifact mutations) against a crash/diagnostic oracle",
+         "Exploration: random Unicode and token sequences, mutated corpus programs, 1..256-deep nestings of every bracketing form, and single-leaf/raw mutations of the interface/core artifacts of all corpus projects are pushed through compile, check_package, build_package, read_core and link_cores under panic capture in memory-capped worker processes; Err must carry an error diagnostic, ranges must lie in the text. Absence of crashes beyond the explored inputs is not shown.",
+         "Trusted: in-process calls stand for the CLI subcommands; non-termination is only observable as a watchdog hit (reported as inconclusive, exit 2); resource exhaustion is observed as a worker abort under a 6 GiB address-space cap.",
+         "DESIGN.md §5 C04"),
  "C12": ("exhaustive short strings + random/mutated texts; round-trip & tiling oracle on lexer and CST",
          "Exploration: every string of <=3 (quick) / <=4 (thorough) symbols over a 46-symbol alphabet covering each token class is enumerated, plus random token/Unicode soups and corpus mutations; each input is judged by a complete oracle (text round-trip, token tiling on char boundaries, leaves==lexer tokens, ranges in bounds, parse twice equal). Absence beyond the explored inputs is not shown.",
          "Trusted: rowan's text(); the harness oracle. Inputs longer than the bounds are only sampled.",
